@@ -12,7 +12,7 @@ Extraction "dsgm_model.ml" Base.memN Base.memZ
   Matrix.enum_M Matrix.validate Matrix.count_M Matrix.max_conn_mat
   Proc.restrict_rows Proc.arun Proc.ainit
   Coding.coding_verdict Coding.coding_ok
-  ConnChoice.conn_sets ConnChoice.edges_valid ConnChoice.settings_for
+  ConnChoice.conn_sets ConnChoice.edges_valid ConnChoice.settings_for ConnChoice.combined
   Sup.resolve Sup.resolve_one
   Timeout.allowed Timeout.run
   Identity.same_graph
